@@ -95,6 +95,50 @@ def check_case(ctx, case, V=None):
                         est, exp.tolist(), [None if x is None else float(x) for x in m]), case)
             ctx.lean.ask(['c01', 'exp', est, frs(edges), frs(d), frs(diffs)], cb_exp)
 
+    # ---- the whole pipeline through the end-to-end model (`variogramE2E`): maxlag resolution, clipping, edge
+    #      construction, grouping, counting and the estimator composed inside Lean, from the implementation's
+    #      dense distance vector and the observed values alone
+    kw = case['kw']
+    if not sparse and kw['bin_func'] in ('even', 'uniform') and est != 'cressie' and case.get('dtype', 'float64') == 'float64' \
+            and not (est == 'genton' and counts.max(initial=0) > 45):
+        req = kw['maxlag']
+        reqtok = 'none' if req is None else (req if isinstance(req, str) else fr(req))
+        with quiet():
+            ml_impl = V.maxlag
+        vals_f = np.array(case['values'], dtype=float)
+
+        def cb_e2e(f, case=case, edges=edges, groups=groups, counts=counts, exp=exp, d=d, ml_impl=ml_impl):
+            ctx.count('pipeline_e2e')
+            mml = parse_nums(f[0])[0]
+            medges = parse_nums(f[1]) if f[1] else []
+            if not close(mml, ml_impl, rel=1e-12):
+                ctx.violation('e2e-maxlag', 'maxlag=%r resolves to %r, end-to-end model %r' % (
+                    case['kw']['maxlag'], ml_impl, None if mml is None else float(mml)), case)
+                return
+            if not all_close(medges, edges.tolist(), rel=1e-9):
+                ctx.violation('e2e-edges', 'lag edges %r, end-to-end model %r' % (
+                    edges.tolist(), [float(x) for x in medges]), case)
+                return
+            # grouping is compared only when no distance lies within rounding distance of an edge (the model builds
+            # the edges in exact arithmetic) or the edges coincide exactly
+            me = np.array([float(x) for x in medges])
+            near = np.min(np.abs(d[:, None] - me[None, :]) / np.maximum(1.0, np.abs(me[None, :]))) if len(me) else 1.0
+            from fractions import Fraction
+            same = len(medges) == len(edges) and all(Fraction(float(e)) == m for e, m in zip(edges.tolist(), medges))
+            if not (near > 1e-9 or same):
+                ctx.count('pipeline_e2e_skipped_edge_rounding')
+                return
+            mg = parse_ints(f[2]) if f[2] else []
+            mc = parse_ints(f[3]) if f[3] else []
+            mx = parse_nums(f[4]) if f[4] else []
+            if mg != groups.tolist() or mc != counts.tolist():
+                ctx.violation('e2e-groups', 'lag classes / counts differ from the end-to-end model: counts %r vs %r' % (
+                    counts.tolist(), mc), case)
+            elif not all_close(mx, exp.tolist(), rel=1e-9):
+                ctx.violation('e2e-experimental', 'experimental %r, end-to-end model %r' % (
+                    exp.tolist(), [None if x is None else float(x) for x in mx]), case)
+        ctx.lean.ask(['c01', 'pipeline', est, kw['bin_func'], str(int(kw['n_lags'])), reqtok, frs(d), frs(vals_f)], cb_e2e)
+
     # ---- alignment and "exactly those pairs" ----------------------------------------------
     coords = np.array(case['coords'], dtype=float)
     vals = np.array(case['values'], dtype=float)
